@@ -6,7 +6,9 @@ import (
 	"fmt"
 	"math"
 	"math/rand/v2"
+	"net"
 	"reflect"
+	"time"
 	"unsafe"
 
 	flyt "github.com/mark3labs/flyt"
@@ -34,6 +36,16 @@ type NamedInt int
 type NamedFloat float64
 type NamedString string
 type NamedBool bool
+// StringerStruct has a String method (value receiver).
+type StringerStruct struct{ N int }
+
+func (s StringerStruct) String() string { return fmt.Sprintf("stringer-%d", s.N) }
+
+// DerefStringer has a String method that dereferences its pointer receiver (calling it on a nil pointer panics).
+type DerefStringer struct{ Name string }
+
+func (d *DerefStringer) String() string { return d.Name }
+
 type Tagged struct {
 	ID   int    `json:"id"`
 	Name string `json:"name"`
@@ -103,6 +115,9 @@ func Fixed() []Named {
 		// the library's own named string type as a payload: a value like any other
 		{"flyt-action", flyt.Action("approve")}, {"flyt-action-empty", flyt.Action("")}, {"flyt-action-default", flyt.DefaultAction},
 		{"slice-of-iface-err-two", []error{fmt.Errorf("e1"), nil}}, {"slice-of-stringer", []fmt.Stringer{nil}},
+		// values whose types have a String() method: not strings
+		{"stringer-duration", time.Duration(1500) * time.Millisecond}, {"stringer-struct", StringerStruct{7}}, {"stringer-ptr", &StringerStruct{8}},
+		{"stringer-typed-nil-ptr", (*DerefStringer)(nil)}, {"stringer-ip", net.IPv4(10, 0, 0, 1)}, {"stringer-weekday", time.Wednesday},
 		{"float32-neg0", float32(math.Copysign(0, -1))}, {"complex128-0", complex(0, 0)}, {"complex128-neg0", complex(math.Copysign(0, -1), 0)},
 		{"ptr-to-slice", &[]int{1, 2}}, {"ptr-to-anyslice", &[]any{1}}, {"ptr-to-nil-slice", new([]string)},
 		{"map-string-any-other-keys", map[string]any{"c": 3, "nested": map[string]any{"x": 1}}}, {"map-string-any-nested", map[string]any{"a": 9, "nested": map[string]any{"y": 2}}},
